@@ -16,39 +16,104 @@ import astload  # noqa: E402
 import nvwp  # noqa: E402
 import sx  # noqa: E402
 import losses  # noqa: E402
+import functions  # noqa: E402
+import constraints  # noqa: E402
+
+GENERIC_FUNCTIONS = ['sphere', 'sargan', 'zakharov', 'styblinski_tang', 'axis_ellipsoid', 'cauchy', 'chung_reynolds', 'exponential', 'qing',
+                     'schumer_steiglitz']
+# name -> (sizes, options): functions that couple coordinates / loop with strides / use matrices or arg-max: fixed dimensions only
+BOUNDED_FUNCTIONS = {
+    'trid': ((1, 2, 3, 4), {}),
+    'powell': ((4,), {}),
+    'rosenbrock': ((2, 3), {}),
+    'dixon_price': ((1, 2, 3), {}),
+    'rotated_ellipsoid': ((1, 2, 3), {}),
+    'quadratic': ((1, 2, 3), {'use_ctor': True, 'convex_sizes': (1, 2)}),
+    'maxq': ((1, 2, 3), {}),
+    'maxhilb': ((1, 2, 3), {'convex_sizes': (1, 2)}),
+    'kinks': ((1, 2), {}),
+    'geometric': ((1, 2), {'use_ctor': True, 'cls': 'function_geometric_optimization_t'}),
+    'chained_lq': ((2, 3), {'convex_sizes': (2,)}),
+    'chained_cb3I': ((2, 3), {'convex_sizes': (2,)}),
+    'chained_cb3II': ((2, 3), {'convex_sizes': (2,)}),
+}
 
 
 def build(tier):
-    vcs, info, not_decided = [], [], []
+    import core
+    vcs, bounded, info, not_decided = [], [], [], []
+    assumptions = set()
     flags = {}
-    for k in losses.KERNELS:
-        for pol, spec in losses.specialisations(k):
+
+    def guarded(what, f):
+        def job():
             try:
-                v, fl = losses.kernel_vcs(k, pol, spec, info, not_decided)
+                return f()
             except (nvwp.Unsupported, sx.SxError) as e:
-                raise astload.ExtractionError(f'loss kernel {k}<{pol}>: {e}')
-            vcs += v
-            flags[f'{k[:-2]}[{pol[:-2]}]'] = fl
-    for p in losses.POLICIES:
-        try:
-            vcs += losses.error_vcs(p, info, not_decided)
-        except (nvwp.Unsupported, sx.SxError) as e:
-            raise astload.ExtractionError(f'error policy {p}: {e}')
-    try:
-        vcs += losses.flatten_vcs(info)
-        v, fl = losses.pinball_vcs(info, not_decided)
-        vcs += v
+                return astload.ExtractionError(f'{what}: {e}')
+            except astload.ExtractionError as e:
+                return e
+        return job
+
+    def kernels():
+        v = []
+        for k in losses.KERNELS:
+            for pol, spec in losses.specialisations(k):
+                r, fl = losses.kernel_vcs(k, pol, spec, info, not_decided)
+                v += r
+                flags[f'{k[:-2]}[{pol[:-2]}]'] = fl
+        for p in losses.POLICIES:
+            v += losses.error_vcs(p, info, not_decided)
+        return v, []
+
+    def sample_loops():
+        v = losses.flatten_vcs(info)
+        r, fl = losses.pinball_vcs(info, not_decided)
         flags['pinball'] = fl
-    except (nvwp.Unsupported, sx.SxError) as e:
-        raise astload.ExtractionError(f'per-sample loops: {e}')
+        return v + r, []
+
+    def generic_fn(name):
+        def f():
+            v, fl = functions.generic_vcs(name, info, not_decided, assumptions)
+            flags['function_' + name] = fl
+            return v, []
+        return f
+
+    def bounded_fn(name, sizes, opts):
+        def f():
+            v, fl = functions.bounded_vcs(name, sizes, info, not_decided, assumptions, **opts)
+            flags['function_' + name] = fl
+            return [], v
+        return f
+
+    def constraint_kinds():
+        v = constraints.generic_kind('euclidean_ball_t', info, not_decided) + constraints.generic_kind('linear_t', info, not_decided)
+        b = []
+        for k in ('minimum_t', 'maximum_t', 'constant_t'):
+            b += constraints.bounded_kind(k, (1, 2, 3), info, not_decided)
+        b += constraints.bounded_kind('quadratic_t', (1, 2), info, not_decided, symmetric=True, label='(symmetric P)')
+        b += constraints.bounded_kind('quadratic_t', (1, 2), info, not_decided)
+        return v, b
+
+    jobs = [guarded('loss kernels / error policies', kernels), guarded('per-sample loops', sample_loops), guarded('constraints', constraint_kinds)]
+    jobs += [guarded(f'function {n}', generic_fn(n)) for n in GENERIC_FUNCTIONS]
+    jobs += [guarded(f'function {n} (bounded)', bounded_fn(n, sizes, opts)) for n, (sizes, opts) in BOUNDED_FUNCTIONS.items()]
+    # the jobs are dominated by clang runs (one translation unit per benchmark function): run them side by side
+    for r in core.parallel(jobs, workers=12):
+        if isinstance(r, Exception):
+            raise r
+        vcs += r[0]
+        bounded += r[1]
+    info.sort(key=lambda f: (str(f.get('file')), f.get('line') or 0, f.get('c_name')))
+    not_decided.sort()
     # VC names must be unique (lemma VCs of different kernels share their text)
     seen = {}
-    for v in vcs:
+    for v in vcs + bounded:
         seen[v.name] = seen.get(v.name, 0) + 1
         if seen[v.name] > 1:
             v.name += f' ~{seen[v.name]}'
     return {
-        'targets': [], 'vcs': vcs, 'functions': info,
+        'targets': [], 'vcs': vcs, 'bounded': bounded, 'functions': info,
         'decided': [
             'losses (16 of 17; classnll: only the loop / index discipline): the gradient written by vgrad is the derivative of the value returned by value '
             '(per output coordinate, away from the kinks of abs / max / the branch the code switches on); a loss that declares itself smooth has no '
@@ -82,3 +147,59 @@ def build(tier):
         'trusted': ['specs/C06/sx.py derivative rule table', 'specs/C06/vcgen.py stated facts about exp / log / log1p / sqrt and finite sums',
                     'specs/C06/eig.py closed list of Eigen operations'],
     }
+
+
+def replay(rp):
+    """native replay on the real library (replay/C06_replay.cpp): the property's own clause is evaluated at the verifier's point
+    (plus a few fixed generic points: a wrong factor or sign shows almost everywhere, and the uninterpreted exp / log of the model
+    need not be the real ones)"""
+    import re
+    import replaylib
+    out = {'reproduced': False, 'runs': []}
+    exe = replaylib.build_with_library('replay/C06_replay.cpp', 'C06_replay')
+
+    def run(args):
+        rc, so, se = replaylib.run_driver(exe, args)
+        out['runs'].append({'args': [str(a) for a in args], 'exit': rc, 'output': so.strip()[-1200:]})
+        if rc == 1:
+            out['reproduced'] = True
+
+    target = rp.get('target', '')
+    for fo in rp.get('failed_obligations', []):
+        oid = fo.get('id', '')
+        model = replaylib.parse_model((fo.get('counterexample') or {}).get('model', ''))
+        m = re.match(r'function_(\w+?)\[n=(\d+)\]', target)
+        g = re.match(r'function_(\w+)$', target)
+        if target.startswith('constraint_quadratic'):
+            run(['quadconvex' if 'convex' in oid else 'quadgrad'])
+        elif m or g:
+            name = (m or g).group(1)
+            n = int(m.group(2)) if m else 3
+            fid = function_id(name)
+            xs = [model.get(f'x@{k}') if m else None for k in range(n)]
+            zs = [model.get(f'z@{k}') if m else None for k in range(n)]
+            points = []
+            if m and all(v is not None for v in xs):
+                points.append(([float(v) for v in xs], [float(v) if v is not None else 0.0 for v in zs]))
+            points += [([0.7, -1.3, 0.4, 1.9][:n], [-0.6, 0.8, 1.7, -0.2][:n]), ([2.0, -3.0, 1.0, 0.5][:n], [2.0, -2.0, 1.0, 0.5][:n])]
+            for x, z in points:
+                if all(abs(v) < 1e6 for v in x + z):
+                    run((['fconvex', fid, n] + x + z) if 'convex' in oid else (['fgrad', fid, n] + x))
+        elif target.startswith('loss_'):
+            lm = re.match(r'loss_(\w+?)(?:\[(\w+)\])?$', target)
+            lid = {'sclass': 's-', 'mclass': 'm-', 'absdiff': '', None: ''}[lm.group(2)] + lm.group(1).replace('_', '-')
+            t, o, z = model.get('target@i'), model.get('output@i'), model.get('output@z')
+            pts = [(t, o, z if z is not None else 0.0)] if (t is not None and o is not None) else []
+            pts += [(1.0, 0.3, -0.8), (-1.0, 0.4, 2.0), (1.0, -1.7, 0.9), (-1.0, -0.6, -2.5)]
+            for (t, o, z) in pts:
+                if all(abs(float(v)) < 1e3 for v in (t, o, z)):
+                    run(['loss', lid, float(t), float(o), float(z)])
+    return out
+
+
+def function_id(name):
+    """the registered id of a benchmark function: the string literal its constructor hands to function_t"""
+    opts = BOUNDED_FUNCTIONS.get(name, ((), {}))[1]
+    ctor = functions.ctor_of(name, opts.get('cls'))
+    lits = [x['value'].strip('"') for x in astload.walk(ctor) if x.get('kind') == 'StringLiteral']
+    return lits[0] if lits else name
